@@ -309,9 +309,240 @@ func genCase(r *hlib.Rand, profile string, emit func(string, ...any)) int {
 	return g.ops
 }
 
+// ---- scripted cases (each is a complete case with its own reset)
+
+func (g *caseGen) start3(n, a int) {
+	g.op("hs %d %d", n, a)
+	for i := 0; i < 3; i++ {
+		g.op("sleep %d", g.interval)
+		g.op("tick %d", n)
+	}
+}
+
+func shuffled(r *hlib.Rand, xs []int) []int {
+	out := append([]int(nil), xs...)
+	for i := len(out) - 1; i > 0; i-- {
+		j := r.Intn(i + 1)
+		out[i], out[j] = out[j], out[i]
+	}
+	return out
+}
+
+// genOwnAddrCase: the initiator (node 0) holds v1 [x1] + v2 [x1, own extras]; the responder's v2 certificate lists one or
+// two of those extras next to its own addresses, so that the initiator's own address sits first / in the middle / last,
+// before / after the address it is actually handshaking with. Initiating with v1 keeps the extras out of the responder's
+// sight, so an unmodified responder answers.
+func genOwnAddrCase(r *hlib.Rand, emit func(string, ...any)) int {
+	g := &caseGen{r: r, emit: emit, interval: 100, retries: 5}
+	x1 := 1 + r.Intn(4)
+	extras := []int{}
+	for _, e := range shuffled(r, []int{x1 + 10, x1 + 30, 100 + x1, 120 + x1}) {
+		if len(extras) < 1+r.Intn(3) {
+			extras = append(extras, e)
+		}
+	}
+	mine := append([]int{x1}, extras...)
+	// the responder's own addresses around the extras: below all, between, above all, v6
+	own := shuffled(r, []int{x1 + 5, x1 + 20, x1 + 40, 110 + x1, 130 + x1})[:1+r.Intn(3)]
+	claimed := shuffled(r, extras)[:1+r.Intn(len(extras))]
+	if r.Chance(1, 6) {
+		claimed = nil // control: a multi-address peer that claims nothing of ours
+	}
+	theirs := append(append([]int{}, own...), claimed...)
+	g.nodes = []nodeSpec{{3, mine}, {2, theirs}}
+	if r.Bool() {
+		g.nodes = append(g.nodes, nodeSpec{2, []int{50}})
+	}
+	var specs []string
+	for _, s := range g.nodes {
+		specs = append(specs, specString(s))
+	}
+	g.op("reset %d %d %s", g.retries, g.interval, strings.Join(specs, " "))
+	for _, a := range shuffled(r, own) {
+		if a >= 100 && r.Chance(2, 3) {
+			continue // an IPv6 target makes the initiator use its v2 certificate, which the responder refuses
+		}
+		g.op("lh 0 %d 1", a)
+		g.start3(0, a)
+		g.op("dl 0")
+		g.op("dl 0")
+		if r.Chance(1, 3) {
+			g.op("send 0 %d 1500 40", a)
+		}
+		if r.Chance(1, 3) {
+			g.op("dl %d", r.Intn(3))
+		}
+	}
+	if r.Bool() {
+		// and the other direction: the responder dials one of the initiator's addresses
+		a := mine[r.Intn(len(mine))]
+		g.op("lh 1 %d 0", a)
+		g.start3(1, a)
+		g.op("dl 0")
+		g.op("dl 0")
+	}
+	return g.ops
+}
+
+// genDelayedStage2Case: n dials m; m's answer is held back; m dials n (later peer time) and n accepts it as responder;
+// the held-back answer then completes n's own (older) handshake, which becomes primary. Every earlier transmission is
+// then replayed, to its destination and elsewhere, with primary swaps in between.
+func genDelayedStage2Case(r *hlib.Rand, emit func(string, ...any)) int {
+	g := &caseGen{r: r, emit: emit, interval: hlib.Pick(r, 100, 50), retries: 10}
+	g.nodes = []nodeSpec{{2, []int{1}}, {2, []int{2}}}
+	if r.Chance(1, 3) {
+		g.nodes[1] = nodeSpec{2, []int{2, 12}}
+	}
+	if r.Chance(1, 3) {
+		g.nodes = append(g.nodes, nodeSpec{2, []int{3}})
+	}
+	var specs []string
+	for _, s := range g.nodes {
+		specs = append(specs, specString(s))
+	}
+	g.op("reset %d %d %s", g.retries, g.interval, strings.Join(specs, " "))
+	n, m := 0, 1
+	if r.Bool() {
+		n, m = 1, 0
+	}
+	a, b := g.nodes[m].addrs[0], g.nodes[n].addrs[0]
+	g.op("lh %d %d %d", n, a, m)
+	g.op("lh %d %d %d", m, b, n)
+	g.start3(n, a) // stage 1 of n
+	g.op("dl 0")   // m answers (held back) and holds n's tunnel as responder
+	g.op("sleep %d", hlib.Pick(r, 1, g.interval, 3*g.interval))
+	g.op("rehs %d %d", m, b)
+	for i := 0; i < 3; i++ {
+		g.op("sleep %d", g.interval)
+		g.op("tick %d", m)
+	}
+	g.op("dl 0") // m's stage 1 reaches n: n accepts as responder
+	g.op("dl 2") // the held-back answer completes n's handshake: an initiator tunnel with an older peer time is primary
+	for i := 0; i < 4+r.Intn(6); i++ {
+		switch r.Intn(6) {
+		case 0:
+			g.op("swap %d %d", n, (n+1)*1000+1+r.Intn(3))
+		case 1:
+			g.op("dlto %d %d", r.Intn(6), g.node())
+		default:
+			g.op("dl %d", r.Intn(6)) // replay every held tunnel's first message, not only the primary's
+		}
+	}
+	return g.ops
+}
+
+// genRaceChecksCase: simultaneous initiation between two nodes, the four messages in a random order, then connection
+// manager traffic checks on every tunnel with traffic flags: quiet intervals, late inbound traffic on the non-primary
+// tunnel (swap), quiet again.
+func genRaceChecksCase(r *hlib.Rand, emit func(string, ...any)) int {
+	g := &caseGen{r: r, emit: emit, interval: 100, retries: 10}
+	g.nodes = []nodeSpec{{2, []int{1}}, {2, []int{2}}}
+	if r.Chance(1, 4) {
+		g.nodes[r.Intn(2)].ver = 3
+	}
+	g.op("reset %d %d %s %s", g.retries, g.interval, specString(g.nodes[0]), specString(g.nodes[1]))
+	g.op("lh 0 2 1")
+	g.op("lh 1 1 0")
+	g.op("hs 0 2")
+	g.op("hs 1 1")
+	for i := 0; i < 3; i++ {
+		g.op("sleep %d", g.interval)
+		g.op("tick 0")
+		g.op("tick 1")
+	}
+	// transmissions so far: [s1 of 0, s1 of 1]; deliver both, then the two answers, in a random order
+	if r.Bool() {
+		g.op("dl 1")
+		g.op("dl 1")
+	} else {
+		g.op("dl 0")
+		g.op("dl 2")
+	}
+	for _, j := range shuffled(r, []int{0, 1}) {
+		g.op("dl %d", j)
+	}
+	if r.Chance(1, 4) {
+		g.op("dl %d", r.Intn(4))
+	}
+	for round := 0; round < 2+r.Intn(3); round++ {
+		x := r.Intn(2)
+		li := (x+1)*1000 + 1 + r.Intn(2)
+		o := r.Intn(2)
+		// a quiet interval, then traffic arrives, then quiet again
+		g.op("cmcheck %d %d 0 %d", x, li, o)
+		if r.Chance(3, 4) {
+			g.op("cmcheck %d %d 1 %d", x, li, r.Intn(2))
+		}
+		g.op("cmcheck %d %d 0 %d", x, li, r.Intn(2))
+		if r.Bool() {
+			g.op("cmcheck %d %d %d %d", x, li, r.Intn(2), r.Intn(2))
+		}
+		if r.Chance(1, 3) {
+			y := r.Intn(2)
+			g.op("cmcheck %d %d %d %d", y, (y+1)*1000+1+r.Intn(3), r.Intn(2), r.Intn(2))
+		}
+	}
+	return g.ops
+}
+
+// genReloadCase: the trust store changes (the peer's certificates are blocklisted by a config reload) while a handshake
+// is pending, before it starts, or after it completed.
+func genReloadCase(r *hlib.Rand, emit func(string, ...any)) int {
+	g := &caseGen{r: r, emit: emit, interval: 100, retries: 10}
+	g.nodes = []nodeSpec{{hlib.Pick(r, 2, 2, 3), []int{1}}, {hlib.Pick(r, 2, 2, 3, 1), []int{2}}, {2, []int{3}}}
+	var specs []string
+	for _, s := range g.nodes {
+		specs = append(specs, specString(s))
+	}
+	g.op("reset %d %d %s", g.retries, g.interval, strings.Join(specs, " "))
+	n, m := 0, 1
+	if r.Bool() {
+		n, m = 1, 0
+	}
+	a := g.nodes[m].addrs[0]
+	g.op("lh %d %d %d", n, a, m)
+	when := hlib.Pick(r, 0, 1, 2, 2, 2, 2, 3, 4)
+	if when == 0 {
+		g.op("block %d %d", n, m)
+	}
+	g.start3(n, a)
+	if when == 1 {
+		g.op("block %d %d", n, m) // stage 1 sent, not yet delivered
+	}
+	if when == 4 {
+		g.op("block %d %d", m, n) // the responder distrusts the initiator
+	}
+	g.op("dl 0")
+	if when == 2 || r.Chance(1, 3) {
+		g.op("block %d %d", n, hlib.Pick(r, m, m, m, 2)) // between stage 1 sent and stage 2 processed
+	}
+	g.op("dl 0")
+	if when == 3 {
+		g.op("block %d %d", n, m) // after completion: the connection manager closes the tunnel
+	}
+	g.op("cmcheck %d %d %d 0", n, (n+1)*1000+1, r.Intn(2))
+	if r.Bool() {
+		g.op("dl %d", r.Intn(3))
+		g.op("send %d %d 1500 40", n, a)
+	}
+	return g.ops
+}
+
 func gen(r *hlib.Rand, n int, tier, profile string, emit func(string, ...any)) {
 	total := 0
 	for total < n {
-		total += genCase(r, profile, emit)
+		k := r.Intn(100)
+		switch {
+		case profile == "C09" && k < 20, profile != "C09" && k < 3:
+			total += genOwnAddrCase(r, emit)
+		case profile == "C09" && k < 36, profile != "C09" && k < 6:
+			total += genReloadCase(r, emit)
+		case profile == "C10" && k < 55, profile != "C10" && k < 9:
+			total += genDelayedStage2Case(r, emit)
+		case profile == "C31" && k < 60, profile != "C31" && k < 12:
+			total += genRaceChecksCase(r, emit)
+		default:
+			total += genCase(r, profile, emit)
+		}
 	}
 }
